@@ -1,3 +1,4 @@
 pub mod epoch;
 pub mod farm;
 pub mod farm_replay;
+pub mod pool;
